@@ -1,10 +1,11 @@
-"""C05 — totality. Proof: Properties/C05.v. Tie: class correspondence (ok / refusal / panic) between the implementation
+"""C05 — totality. Proof: Properties/C05.v (C05_total: text or refusal, never a panic, for every schema-conforming tree;
+SafeBound.v, Total.v). Tie: class correspondence (ok / refusal / panic) between the implementation
 and the model on every stream, including damaged sources (G4) and nested families (G5)."""
 from . import core, shrink
 from .common import hexs, unhex
 
 PROP_FILE = "Properties/C05.v"
-THEOREMS = ["C05_refuses_iff_erroneous", "C05_convenience_returns_input", "C05_renderer_terminates", "C05_never_out_of_fuel",
+THEOREMS = ["C05_total", "C05_no_panic_site", "C05_schema_survives_annotation", "C05_refuses_iff_erroneous", "C05_convenience_returns_input", "C05_renderer_terminates", "C05_never_out_of_fuel",
             "C05_wellformed_total_partial", "C05_comment_sites_unreachable"]
 
 
@@ -14,6 +15,11 @@ def post(ck, recs):
     ck.oblige("K5-class: implementation and model agree on accepted / refused / panicked for %d cases" %
               sum(1 for r in recs if r.get("k")), not bad_class,
               ("first: %r" % (core.case_of(bad_class[0]),))[:500] if bad_class else "")
+    # hypothesis of C05_total: the schema clause holds on every well-formed tree the parser hands over
+    sw = [r for r in recs if r.get("k") and r["k"].get("model_swfc") is not None and r["o"].get("in_err") != "1"]
+    notsw = [r for r in sw if not r["k"]["model_swfc"]]
+    ck.oblige("hypothesis of C05_total: the extracted schema clause `swfc` holds on all %d well-formed parsed trees" % len(sw), not notsw,
+              ("first: %r" % (core.case_of(notsw[0]),))[:600] if notsw else "")
     fails = [r for r in recs if r["o"].get("c05") == "0"]
     ck.extra["erroneous_inputs"] = sum(1 for r in recs if r["o"].get("in_err") == "1")
     ck.extra["panics"] = sum(1 for r in recs if r["o"].get("class") == "panic")
@@ -39,6 +45,6 @@ def run(tier, seed, replay=None):
         "formatting panicked, or refused a well-formed input / accepted an erroneous one",
         ["the parser (typst_syntax::parse) terminates and returns a tree; native stack depth and allocation failure are runtime "
          "behaviour the model cannot exhibit (nested families are run to depth 16 (quick) / 64 (thorough) as a test)",
-         "no-Panic for well-formed trees is proved only for the comment sites; the other sites are covered by the model's Panic "
-         "constructors being compared with the implementation's panics on every case"],
+         "C05_total: no Panic site of the model is reachable from a well-formed tree that satisfies the schema clause swfc; swfc is "
+         "evaluated on every parsed tree, and the model's ok / refused / panicked class is compared with the implementation's on every case"],
         post=post)
